@@ -522,6 +522,12 @@ pub fn gen_addr(rng: &mut Rng, thorough: bool) -> Vec<String> {
             let w = if rng.chance(2, 3) { v } else { rng.pick(&VARIANTS) };
             let q = if rng.chance(2, 3) { p.clone() } else { rng.pick(&vp) };
             out.push(op_m(w, &q, name));
+            // the pair (prefix + first letter, rest of the name) spells the same text when prefix and name are glued together
+            if name.len() >= 2 && name.is_ascii() && name.chars().next().map(|c| c.is_ascii_lowercase()).unwrap_or(false) && rng.chance(1, 2) {
+                let glued = format!("{}{}", q, &name[..1]);
+                out.push(op_m(w, &glued, &name[1..]));
+                out.push(op_m(w, &q, name));
+            }
             let d = Sha256::digest(name.as_bytes()).to_vec();
             if let Some(s) = raw_encode(w, &q, &bytes_fes(&d)) {
                 // a NAME that is itself a valid address (of this or another codec / prefix) is hashed like any other name
